@@ -904,3 +904,96 @@ func (p *Prog) LoopIndexCoversAll(idx ssa.Value, slice ssa.Value, user ssa.Instr
 		return ok && b.Name() == "len" && sameSlice(ln.Call.Args[0], slice)
 	})
 }
+
+// RetVals resolves the results of a return instruction through defer-spilled result cells:
+// `*t0 = v; rundefers; t5 = *t0; return t5` yields v. When the last store cannot be found in the
+// block chain the load itself is returned.
+func RetVals(ret *ssa.Return) []ssa.Value {
+	out := make([]ssa.Value, len(ret.Results))
+	for i, rv := range ret.Results {
+		out[i] = rv
+		ld, ok := rv.(*ssa.UnOp)
+		if !ok || ld.Op != token.MUL {
+			continue
+		}
+		cell, ok := ld.X.(*ssa.Alloc)
+		if !ok {
+			continue
+		}
+		if v := lastStoreBefore(cell, ld); v != nil {
+			out[i] = v
+		}
+	}
+	return out
+}
+
+// lastStoreBefore finds the value most recently stored into cell on every path to `at`, following
+// unique predecessors; nil when ambiguous.
+func lastStoreBefore(cell *ssa.Alloc, at ssa.Instruction) ssa.Value {
+	b := at.Block()
+	idx := Index(at)
+	for hops := 0; hops < 64; hops++ {
+		for i := idx - 1; i >= 0; i-- {
+			if st, ok := b.Instrs[i].(*ssa.Store); ok && st.Addr == ssa.Value(cell) {
+				return st.Val
+			}
+		}
+		if len(b.Preds) != 1 {
+			return nil
+		}
+		b = b.Preds[0]
+		idx = len(b.Instrs)
+	}
+	return nil
+}
+
+// BlockReachesAvoiding: is there a path starting at the first instruction of start that reaches
+// target without executing an instruction satisfying avoid?
+func BlockReachesAvoiding(start *ssa.BasicBlock, target ssa.Instruction, avoid func(ssa.Instruction) bool) bool {
+	seen := map[*ssa.BasicBlock]bool{}
+	stack := []*ssa.BasicBlock{start}
+	for len(stack) > 0 {
+		blk := stack[len(stack)-1]
+		stack = stack[:len(stack)-1]
+		if seen[blk] {
+			continue
+		}
+		seen[blk] = true
+		blocked := false
+		for _, in := range blk.Instrs {
+			if in == target {
+				return true
+			}
+			if avoid(in) {
+				blocked = true
+				break
+			}
+		}
+		if !blocked {
+			stack = append(stack, blk.Succs...)
+		}
+	}
+	return false
+}
+
+// SameKey: two values are the same map key: identical SSA values, equal string constants, or two calls of
+// the same static method (a pure stringer such as (*label.Label).String) on the same receiver.
+func SameKey(a, b ssa.Value) bool {
+	if a == b {
+		return true
+	}
+	if sa, ok := ConstString(a); ok {
+		if sb, ok := ConstString(b); ok {
+			return sa == sb
+		}
+	}
+	ca, ok1 := a.(*ssa.Call)
+	cb, ok2 := b.(*ssa.Call)
+	if ok1 && ok2 {
+		fa, fb := Callee(ca), Callee(cb)
+		if fa != nil && fa == fb && fa.Name() == "String" && len(ca.Call.Args) == 1 && len(cb.Call.Args) == 1 {
+			return Unwrap(ca.Call.Args[0]) == Unwrap(cb.Call.Args[0])
+		}
+	}
+	return false
+}
